@@ -79,6 +79,11 @@ def cases(tier, seed, info):
                 out.append(dict(kind='crash', mode=m, point=pt_, pel=p, data=data))
         for lim in ('zero', 'one', 'hundred', 'half', 'minus1', 'exact', 'none'):
             out.append(dict(kind='rlimit', limit=lim, pel=p, data=data))
+        # the real process writing to a standard output that really fails: a full device, a pipe nobody reads
+        for sink in ('devfull', 'closedpipe'):
+            for hexm in (False, True):
+                for unbuffered in (False, True):
+                    out.append(dict(kind='sink', sink=sink, hex=hexm, unbuffered=unbuffered, pel=p, data=data))
     # behaviours of CleanWriteN (several files, every step free to fail, the process free to die) replayed
     # through the real -j -c
     # (TLC enumerates ALL of them for 3 files x 2 write calls: 2058 complete behaviours and every crashed prefix)
@@ -502,7 +507,47 @@ def _multi_case(case):
                  out_complete=all(x['real_out'] == 'complete' for x in files), uncaught=uncaught)]
 
 
+def _sink_case(case):
+    """`peltool -f F [-x] -c` as a real process whose standard output cannot take the document"""
+    import subprocess
+    from ..framework import REPO
+    base = seams.scratch_dir('c12sink')
+    work = os.path.join(base, 'run')
+    shutil.rmtree(work, ignore_errors=True)
+    os.makedirs(work)
+    data = bytes(case['data'])
+    in_path = os.path.join(work, '%08X_x' % (0x50000100 + case['pel']))
+    seams.write_file(in_path, data)
+    code = ('import sys\nsys.path.insert(0, %r)\nimport pel.peltool.peltool as pt\n'
+            'sys.argv = ["peltool.py", "-f", %r, "-c"%s]\npt.main()\n'
+            % (os.path.join(REPO, 'modules'), in_path, ', "-x"' if case['hex'] else ''))
+    env = dict(os.environ, PYTHONDONTWRITEBYTECODE='1', PYTHONWARNINGS='ignore')
+    env.pop('PYTHONUNBUFFERED', None)
+    if case['unbuffered']:
+        env['PYTHONUNBUFFERED'] = '1'
+    if case['sink'] == 'devfull':
+        with open('/dev/full', 'w') as sink:
+            p = subprocess.run(['/venv/bin/python', '-c', code], stdout=sink, stderr=subprocess.PIPE, timeout=60, env=env)
+        rc = p.returncode
+    else:
+        r, w = os.pipe()
+        os.close(r)                                   # nobody will ever read
+        try:
+            p = subprocess.run(['/venv/bin/python', '-c', code], stdout=w, stderr=subprocess.PIPE, timeout=60, env=env)
+        finally:
+            os.close(w)
+        rc = p.returncode
+    present = os.path.exists(in_path)
+    unchanged = present and open(in_path, 'rb').read() == data
+    shutil.rmtree(work, ignore_errors=True)
+    return [dict(kind='crash', shape_ok=True, mode='file', entry='main', fault='sink', err=case['sink'], pos='-',
+                 clean=True, hex=case['hex'], pel=case['pel'], events=[], input_present_after=present,
+                 input_unchanged=bool(unchanged), out_complete=False, uncaught='', exit=rc)]
+
+
 def run_case(case):
+    if case.get('kind') == 'sink':
+        return _sink_case(case)
     if case.get('kind') == 'multi':
         return _multi_case(case)
     if case.get('kind') == 'crash':
